@@ -103,7 +103,8 @@ pub fn decode(bytes: &[u8]) -> Result<Decoded, String> {
 					_ => return Err(format!("mixed tile formats / compressions ({name})")),
 				}
 				if d.tiles.insert((z, x, y), data.to_vec()).is_some() {
-					return Err(format!("tile {name} stored twice"));
+					// legal in a tar (an archive that was appended to): the last member of a name is the valid one
+					d.notes.push(format!("tile {name} stored twice"));
 				}
 				continue;
 			}
@@ -156,6 +157,9 @@ pub struct EncOpts {
 	pub no_meta: bool,
 	/// metadata member placed last instead of first
 	pub meta_last: bool,
+	/// an archive that was appended to (`tar -r` / `tar -u`): some tiles occur twice under the same name, the
+	/// older revision first — the last member of a name is the valid one
+	pub revisions: bool,
 }
 
 impl EncOpts {
@@ -167,6 +171,7 @@ impl EncOpts {
 			meta_name: *rng.pick(&["tiles.json", "meta.json", "metadata.json"]),
 			no_meta: rng.chance(0.2),
 			meta_last: rng.chance(0.4),
+			revisions: rng.chance(0.3),
 		}
 	}
 }
@@ -185,6 +190,17 @@ pub fn encode(ts: &TileSet, o: &EncOpts, rng: &mut Rng) -> Vec<u8> {
 	}
 	if o.shuffle {
 		rng.shuffle(&mut items);
+	}
+	if o.revisions {
+		let mut older: Vec<(String, Vec<u8>, u8)> = vec![];
+		for (i, (name, data, tf)) in items.iter().enumerate() {
+			if i % 5 == 1 || i == 0 {
+				let raw = format!("older revision of {name}, replaced by a later member").into_bytes();
+				older.push((name.clone(), if ts.really_compressed { comp::compress(&raw, ts.comp) } else if data.is_empty() { b"x".to_vec() } else { raw }, *tf));
+			}
+		}
+		older.extend(items);
+		items = older;
 	}
 	let mut all: Vec<(String, Vec<u8>, u8)> = dirs.into_iter().map(|d| (d, vec![], b'5')).collect();
 	let meta = (format!("{pre}{}{}", o.meta_name, ts.comp.ext()), comp::compress(ts.tilejson.as_bytes(), ts.comp), b'0');
